@@ -152,6 +152,17 @@ func c18NodeVariants(kind string, thorough bool) []dpgen.Node {
 				}
 			}
 		}
+		// format and signature type that differ (swapped fields show only here): MBR disk without
+		// signature, GPT disk carrying a 32-bit signature, MBR disk carrying a GUID
+		for _, combo := range [][2]uint8{{1, 0}, {2, 1}, {1, 2}, {2, 0}} {
+			n := dpgen.Node{Kind: "HD", PartNum: 1, Start: 0x800, Size: 0x100000, MBRType: combo[0], SigType: combo[1]}
+			if combo[1] == 2 {
+				n.Sig = sigG
+			} else if combo[1] == 1 {
+				n.Sig = sigM
+			}
+			out = append(out, n)
+		}
 	case "File":
 		for _, p := range []string{"\\EFI\\BOOT\\BOOTX64.EFI", "a", "\\\U0001F600\\é.efi", "\\EFI\\\u4e00\\grub\u0100.efi"} {
 			out = append(out, dpgen.Node{Kind: kind, Path: p})
@@ -261,11 +272,18 @@ func c18CheckHDText(want dpgen.Node, text string) string {
 	}
 	typ := strings.TrimSpace(f[1])
 	sig := strings.TrimSpace(f[2])
-	switch want.SigType {
+	switch want.MBRType {
+	case 1:
+		if typ != "MBR" {
+			return "hard-drive text form: type is not MBR"
+		}
 	case 2:
 		if typ != "GPT" {
 			return "hard-drive text form: type is not GPT"
 		}
+	}
+	switch want.SigType {
+	case 2:
 		// signature is an EFI_GUID stored in wire order
 		var w [16]byte = want.Sig
 		canon := refFormat(unwire(w))
@@ -273,9 +291,6 @@ func c18CheckHDText(want dpgen.Node, text string) string {
 			return "hard-drive text form: GPT signature is not the GUID text of the stored EFI_GUID"
 		}
 	case 1:
-		if typ != "MBR" {
-			return "hard-drive text form: type is not MBR"
-		}
 		v, ok := num(sig)
 		if !ok || v != uint64(binary.LittleEndian.Uint32(want.Sig[:4])) {
 			return "hard-drive text form: MBR signature is not the 32-bit integer"
